@@ -1,5 +1,6 @@
 import Driver.Loop
 import Midgard.Model.TimeArith
+import Midgard.Model.TimePurityFlag
 
 namespace Driver.C03
 open Midgard.Proto Midgard.TimeArith
@@ -19,6 +20,49 @@ def parseOp? : String → Option Op
   | "add" => some .add | "sub" => some .sub | _ => none
 
 def showJD (j : JD) : String := s!"{showRat j.jd1} {showRat j.jd2}"
+
+def parseRatList? (s : String) : Option (List Rat) :=
+  if s = "" then some [] else (s.splitOn ",").mapM parseRat?
+
+/-- an operand `s:j1:j2` (scalar) or `a:j1,j1,…:j2,j2,…` (array) -/
+def parseVal? (s : String) : Option Val :=
+  match s.splitOn ":" with
+  | ["s", a, b] => do let a ← parseRat? a; let b ← parseRat? b; pure (.scalar ⟨a, b⟩)
+  | ["a", as, bs] => do
+    let as ← parseRatList? as; let bs ← parseRatList? bs
+    if as.length = bs.length then pure (.array (List.zipWith JD.mk as bs)) else none
+  | _ => none
+
+def showRatList (l : List Rat) : String := ",".intercalate (l.map showRat)
+
+def showVal : Val → String
+  | .scalar j => s!"s:{showRat j.jd1}:{showRat j.jd2}"
+  | .array js => s!"a:{showRatList (js.map (·.jd1))}:{showRatList (js.map (·.jd2))}"
+
+def showKind : Kind → String | .time => "time" | .delta => "delta"
+
+def showHeap (h : Heap) : String :=
+  ";".intercalate (h.map (fun c => s!"{showRatList c.data}/{if c.writable then "w" else "r"}"))
+
+/-- put an operand on the heap: arrays into two buffers with the given flag -/
+def place (h : Heap) (w : Bool) : Val → Heap × Part × Part
+  | .scalar j => (h, .imm j.jd1, .imm j.jd2)
+  | .array js => (h ++ [⟨js.map (·.jd1), w⟩, ⟨js.map (·.jd2), w⟩], .ref h.length, .ref (h.length + 1))
+
+/-- a constructor argument `s:x` or `a:x,x,…` into one caller-owned (writable) buffer -/
+def placeCol (h : Heap) (s : String) : Option (Heap × Part) :=
+  match s.splitOn ":" with
+  | ["s", a] => do let a ← parseRat? a; pure (h, .imm a)
+  | ["a", as] => do let as ← parseRatList? as; pure (h ++ [⟨as, true⟩], .ref h.length)
+  | _ => none
+
+def showResH (h : Heap) : ResH → String
+  | .notImplemented => "NI"
+  | .shapeError => "SHAPE"
+  | .badOperand => "BAD"
+  | .ok o => match h.readVal o.p1 o.p2 with
+    | some v => s!"{showKind o.kind} {showVal v}"
+    | none => "BAD"
 
 def handle : List String → Option String
   | ["c03", "tojds", f, v, v2] => do
@@ -40,6 +84,31 @@ def handle : List String → Option String
     | .notImplemented => pure "NI"
     | .ok .time j => pure s!"time {showJD j}"
     | .ok .delta j => pure s!"delta {showJD j}"
+  | ["c03", "varr", op, ka, sa, a, kb, sb, b] => do
+    -- the operator on scalar / array operands (NumPy broadcasting)
+    let op ← parseOp? op
+    let ka ← parseKind? ka; let sa ← parseScale? sa; let a ← parseVal? a
+    let kb ← parseKind? kb; let sb ← parseScale? sb; let b ← parseVal? b
+    match binopV op ka sa a kb sb b with
+    | .notImplemented => pure "NI"
+    | .shapeError => pure "SHAPE"
+    | .ok k v => pure s!"{showKind k} {showVal v}"
+  | ["c03", "hbinop", op, ka, sa, a, kb, sb, b] => do
+    -- the same on the heap: operands in frozen buffers; answer = result | all buffers afterwards | buffers that existed before
+    let op ← parseOp? op
+    let ka ← parseKind? ka; let sa ← parseScale? sa; let a ← parseVal? a
+    let kb ← parseKind? kb; let sb ← parseScale? sb; let b ← parseVal? b
+    let (h1, a1, a2) := place [] false a
+    let (h2, b1, b2) := place h1 false b
+    let (h3, r) := binopH h2 op ⟨ka, sa, a1, a2⟩ ⟨kb, sb, b1, b2⟩
+    pure s!"{showResH h3 r} | {showHeap (h3.take h2.length)} | {h3.length - h2.length}"
+  | ["c03", "hctor", f, sc, val, val2] => do
+    -- a duration constructor on the heap: the caller's arrays in writable buffers; `writes` from the regenerated purity table
+    let f ← parseFmt? f; let sc ← parseScale? sc
+    let (h1, p1) ← placeCol [] val
+    let (h2, p2) ← (if val2 = "none" then some (h1, none) else (placeCol h1 val2).map (fun x => (x.1, some x.2)))
+    let (h3, r) := ctorH srcWrites h2 f sc p1 p2
+    pure s!"{showResH h3 r} | {showHeap (h3.take h2.length)} | {h3.length - h2.length}"
   | _ => none
 
 end Driver.C03
